@@ -4,7 +4,9 @@
  * (strings: strlen + 1) so that ASan sees any access past either end; files are written into a
  * scratch directory made with mkdtemp under /tmp and removed at exit.
  * getaddrinfo is interposed (-Wl,--wrap=getaddrinfo): host-name forms are outside the property,
- * the driver only records that (and with which strings) the resolver would have been called. */
+ * the driver only records that (and with which strings) the resolver would have been called.
+ * Two build variants: the default one replaces warn()/warnx() by silent stand-ins; with
+ * -DDRV_REAL_WARNP the library's util/warnp.c is linked and run in stderr or syslog mode (below). */
 #include <sys/socket.h>
 #include <sys/stat.h>
 #include <sys/un.h>
@@ -23,6 +25,7 @@
 #include "aws_readkeys.h"
 #include "readpass.h"
 
+#ifndef DRV_REAL_WARNP
 /* ---- warnp stand-ins: format the message (so the argument strings are read) but stay silent ---- */
 void libcperciva_warn(const char * fmt, ...)
 {
@@ -34,6 +37,79 @@ void libcperciva_warnx(const char * fmt, ...)
 	char buf[256]; va_list ap;
 	va_start(ap, fmt); (void)vsnprintf(buf, sizeof(buf), fmt, ap); va_end(ap);
 }
+static void warnp_mode_init(void) { }
+#else
+/* ---- the library's own util/warnp.c is linked (build variant drv_codec2_warnp_asan) ----
+ * The diagnostics path is part of what runs when a parser rejects untrusted text: warn0() quotes
+ * the rejected string.  VERIF_WARNP_MODE=syslog makes the driver call warnp_syslog(1), after
+ * which warnp.c formats every message into its fixed-size line buffer before handing it to
+ * syslog(3); otherwise messages go to stderr (vfprintf, no intermediate buffer).
+ * syslog/vsyslog/openlog/closelog are interposed (-Wl,--wrap=...): nothing reaches the system log;
+ * the stand-in formats the line (reading every argument string under ASan) and counts it.  The
+ * count is printed to stderr at exit ("drv_codec2: syslog-lines N") so that the area module can
+ * tell that the syslog path was really taken. */
+#include <syslog.h>
+#include "warnp.h"
+static unsigned long syslog_lines = 0;
+void __wrap_syslog(int priority, const char * fmt, ...);
+void __wrap_vsyslog(int priority, const char * fmt, va_list ap);
+void __wrap___syslog_chk(int priority, int flag, const char * fmt, ...);
+void __wrap___vsyslog_chk(int priority, int flag, const char * fmt, va_list ap);
+void __wrap_openlog(const char * ident, int option, int facility);
+void __wrap_closelog(void);
+void __wrap_vsyslog(int priority, const char * fmt, va_list ap)
+{
+	int len; char * line;
+	va_list ap2;
+	(void)priority;
+	va_copy(ap2, ap);
+	len = vsnprintf(NULL, 0, fmt, ap2);
+	va_end(ap2);
+	if (len >= 0 && (line = malloc((size_t)len + 1)) != NULL) {	/* exact-size line */
+		(void)vsnprintf(line, (size_t)len + 1, fmt, ap);
+		free(line);
+	}
+	syslog_lines++;
+}
+void __wrap_syslog(int priority, const char * fmt, ...)
+{
+	va_list ap;
+	va_start(ap, fmt); __wrap_vsyslog(priority, fmt, ap); va_end(ap);
+}
+void __wrap___syslog_chk(int priority, int flag, const char * fmt, ...)
+{
+	va_list ap;
+	(void)flag;
+	va_start(ap, fmt); __wrap_vsyslog(priority, fmt, ap); va_end(ap);
+}
+void __wrap___vsyslog_chk(int priority, int flag, const char * fmt, va_list ap)
+{
+	(void)flag;
+	__wrap_vsyslog(priority, fmt, ap);
+}
+void __wrap_openlog(const char * ident, int option, int facility)
+{
+	(void)ident; (void)option; (void)facility;
+}
+void __wrap_closelog(void) { }
+static int warnp_mode_syslog = 0;
+static void warnp_mode_report(void)
+{
+	if (warnp_mode_syslog)
+		warnp_syslog(0);
+	fprintf(stderr, "drv_codec2: syslog-lines %lu\n", syslog_lines);
+}
+static void warnp_mode_init(void)
+{
+	const char * m = getenv("VERIF_WARNP_MODE");
+	warnp_setprogname("drv_codec2");
+	atexit(warnp_mode_report);
+	if (m != NULL && strcmp(m, "syslog") == 0) {
+		warnp_mode_syslog = 1;
+		warnp_syslog(1);
+	}
+}
+#endif
 
 /* ---- getaddrinfo interposer ---- */
 static char * gai_host = NULL; static char * gai_ports = NULL; static int gai_called = 0;
@@ -125,6 +201,7 @@ int main(void)
 	char * line; char * tok[10];
 	setvbuf(stdout, NULL, _IOLBF, 0);
 	scratch_init();
+	warnp_mode_init();
 	while ((line = drv_getline()) != NULL) {
 		int n = drv_split(line, tok, 10);
 		gai_called = 0;
@@ -188,6 +265,19 @@ int main(void)
 			if (sa == NULL) printf("none\n");
 			else { printf("sa "); put_sa(sa); printf("\n"); }
 			sock_addr_free(sa); free(buf);
+		} else if (n == 2 && strcmp(tok[0], "deserpp") == 0) {
+			/* a decoded address handed straight to the printer */
+			size_t len; uint8_t * buf = drv_unhex(tok[1], &len, 0);
+			struct sock_addr * sa = sock_addr_deserialize(buf, len);
+			free(buf);
+			if (sa == NULL) printf("none\n");
+			else {
+				char * s = sock_addr_prettyprint(sa);
+				if (s == NULL) printf("null\n");
+				else { printf("str "); drv_puthex((uint8_t *)s, strlen(s)); printf("\n"); }
+				free(s);
+			}
+			sock_addr_free(sa);
 		} else if (n == 7 && strcmp(tok[0], "cmp") == 0) {
 			struct sock_addr * a = mk_sa(tok[1], tok[2], tok[3]);
 			struct sock_addr * b = mk_sa(tok[4], tok[5], tok[6]);
